@@ -269,10 +269,15 @@ CHECKS["C01"] = dict(
           "per request at its pause point (requests queue behind it); the periodic slot refresh runs at its production rate. Oracle: the reference "
           "keyspace executes each connection's program in order; the observed reply stream must parse as well-formed RESP and equal it "
           "element by element (errors as errors); then a sentinel PING must be answered by exactly +PONG as the next reply and the "
-          "connection must stay silent for 30 ms; a missing reply is a hang (20 s). Non-trivial: >= 2 nodes and the node log shows a "
+          "connection must stay silent for 30 ms; a missing reply is a hang (20 s). part deep: 1..40 connections each writing 500..5000 requests in one "
+          "go (GET / SET / INCR and, every 5th or 31st, an MGET over 3..120 keys - every key of an MGET is a backend request of its own, so "
+          "tens of connections with 33 requests in flight each put more than 1024 requests on one backend connection's queues), values of "
+          "1..5000 bytes, optionally all keys of a connection on one node, node reply delay / slow backend writer, and clients that start "
+          "reading only after 0..400 ms (replies back up in the proxy); same oracle. Non-trivial: >= 2 nodes and the node log shows a "
           "later-arrived command of one node answered before an earlier one of another. Distinct by canonical JSON."),
-    assumptions=["backpressure beyond 1024 queued backend requests is not reached (pipelines <= 400)"],
+    assumptions=["a missing reply is judged by a deadline (20 s; 150 s in the deep part, whose cases are bounded to a few seconds of backend work)"],
     parts=[
+        dict(name="deep", test="TestDeepPipeline", kind="rapid", crash_is_violation=True, checks={"quick": 2, "thorough": 120}, shards=16, timeout={"quick": 900, "thorough": 3400}, shrinktime="60s", gomaxprocs=4),
         dict(name="pipeline", test="TestPipeline", kind="rapid", crash_is_violation=True, checks={"quick": 100, "thorough": 2500}, shards=16, timeout={"quick": 900, "thorough": 3400}, shrinktime="60s", gomaxprocs=4),
     ],
 )
